@@ -63,6 +63,25 @@ Theorem C17_jump_numbers_stored : forall p fl_tok k t ln m,
 Proof. exact jump_number_stored_all. Qed.
 Print Assumptions C17_jump_numbers_stored.
 
+(* a keyword directly followed by a type character or punctuation: for every dialect, every alphabetic keyword k
+   (other than REM DATA ELSE WHILE), every c in $ % ! # ( ) , ; : and every line number, the line "n Kc" (INPUT$, PRINT#,
+   KEY(, NEXT: ...) is in the class: the lister puts no blank between keyword and character, and the line round-trips.
+   Pins the lister's no-space-after set for these characters (proof, not only generator). *)
+Theorem C17_keyword_then_punct_roundtrip : forall p fl_tok fl_str k t c n,
+  In p tk_syntaxes -> assoc k (snd p) = Some t -> alpha_word k = true -> not_special_word k = true ->
+  In c close_punct -> 0 <= n <= 65529 ->
+  detokenise_line (fst p) fl_str (tl (line_toks (snd p) n [IKw k; IPunct c])) = Ok (n, line_text n [IKw k; IPunct c])
+  /\ tokenise_line (snd p) fl_tok (line_text n [IKw k; IPunct c]) = Ok (line_toks (snd p) n [IKw k; IPunct c]).
+Proof. exact keyword_punct_roundtrip_all. Qed.
+Print Assumptions C17_keyword_then_punct_roundtrip.
+
+(* its hypotheses are satisfiable: INPUT followed by $ in the advanced dialect; the text is "10 INPUT$" *)
+Example C17_keyword_then_punct_nonvacuous :
+  assoc [73; 78; 80; 85; 84] to_token_advanced = Some [133] /\ alpha_word [73; 78; 80; 85; 84] = true
+  /\ not_special_word [73; 78; 80; 85; 84] = true /\ In 36 close_punct
+  /\ line_text 10 [IKw [73; 78; 80; 85; 84]; IPunct 36] = [49; 48; 32; 73; 78; 80; 85; 84; 36].
+Proof. repeat split; try (vm_compute; reflexivity). unfold close_punct. left. reflexivity. Qed.
+
 (* non-vacuity: 10 IF A=1.5 THEN 100 ELSE NOISE 1:REM x  (tandy; NOISE is a tandy/pcjr keyword) is in the class,
    with the float conversions given by a two-entry table, and its text and tokens are what one expects *)
 Example C17_nonvacuous :
